@@ -62,7 +62,7 @@ harness(
     modifies=lambda c: [],
     ensures=_post,
     inline=["dvc_data.fsutils:_localfs_info"],
-    props=["C13", "C05", "C10"],
+    props=["C13", "C05", "C10", "C01", "C02", "C03"],  # every property whose staging walk / checkout reads stat information through it
     doc="_localfs_info(path): size, mtime, inode, link count, mode and type are those of the file the path resolves to (a symbolic "
         "link is followed); 'islink' tells whether the path itself is a link; nothing is modified.  (A lemma over the real body: "
         "callers use the ghost-state contract of the same function in store_check.py, which this lemma does not replace.)",
